@@ -17,7 +17,7 @@ CHECKS = {
  "C09": ("MC_Derive", "chain (both case modes, both orders) and get_subconverter (every prefix subset) over all pairs of base converters: union, grouping, priority, case-fold separation, restriction"),
  "C10": ("MC_Derive + MC_Remap", "frame condition as TLC action property; after EVERY step the projection of EVERY live converter is compared with its previous one (all six derivations, follow-up merging adds on the derived converter, long tlc -simulate behaviours deriving from derived converters)"),
  "C11": ("MC_Remap", "every partial map over 4 names x every strict converter of <=2 records with <=1 synonym: documented errors, no prefix lost, URI side untouched"),
- "C12": ("MC_Derive", "every injective map (<=1 pair quick, <=2 thorough) for remap_uri_prefixes and rewire; rewire applied twice for idempotence"),
+ "C12": ("MC_Derive", "every injective map (<=1 pair quick, <=2 thorough) for remap_uri_prefixes and rewire on one- and two-record converters; an Apalache check of the declarative statement over UNBOUNDED strings; rewire applied twice for idempotence"),
  "C13": ("MC_Build", "every small prefix map / priority map / reverse map / JSON-LD context / non-bijective map for upgrade_prefix_map, all dictionary orders; loading via object, str path and Path"),
  "C14": ("MC_IO", "every strict converter of <=2 records over hazard classes {plain, backslash, non-ASCII, space} with synonym and pattern, every format x flags, at the level of what the file denotes; the real writers/readers are run over hazard alphabets per format (EPM: arbitrary Unicode incl. control characters and quotes; JSON-LD; SHACL/TSV: printable without quote/angle brackets) and the read-back converter is compared with the predicted one"),
  "C16": ("MC_Bulk", "the file helper as a step machine (read+convert all rows, then write): every table <=2 (thorough 3) rows x cell pool x header x column x strict/passthrough/ambiguous, fault at each row position (reachability checked); recorded executions (one event per cell conversion with the file's bytes compared at that moment) must be behaviours of the machine; data-frame variants element-wise"),
